@@ -400,6 +400,27 @@ func s14() {
 	vs.Event(fmt.Sprintf("isopen:%v,%v,%v,%v", outs[0].IsOpen(), outs[1].IsOpen(), outs[2].IsOpen(), outs[3].IsOpen()))
 }
 
+// S17: Driver.Close while another thread opens a port again that the driver
+// already knows (it was open and closed before): nothing blocks, and once its
+// owner has closed it the port is closed.
+func s17() {
+	script(nil, 0)
+	drv, _ := midicatdrv.New()
+	outs, _ := drv.Outs()
+	out := outs[0]
+	vs.Event("open:" + errStr(out.Open()))
+	vs.Event("close:" + errStr(out.Close()))
+	done := vs.NewChan[int](1)
+	vs.GoNamed("opener", func() {
+		vs.Event("open-again:" + errStr(out.Open()))
+		done.Send(1)
+	})
+	vs.Event("driver-close:" + errStr(drv.Close()))
+	done.Recv()
+	out.Close()
+	vs.Event(fmt.Sprintf("isopen:%v", out.IsOpen()))
+}
+
 // S6: Driver.Close closes whatever is open, also while a listener is active.
 func s6() {
 	sc := script(lines, 0)
@@ -635,6 +656,13 @@ func scenarios() []scenario {
 			}
 			if s, w := expectSeq(e, []string{"open:", "driver-close:", "old-ports-open-after-driver-close:", "isopen:"},
 				[]string{"open:nil", "open:nil", "driver-close:nil", "old-ports-open-after-driver-close:false,false", "isopen:false,false,false,false"}); s != "" {
+				return s, w
+			}
+			return "", ""
+		}},
+		{"S17-driver-close-while-reopening", s17, func(e *vs.Exec) (string, string) {
+			if s, w := expectSeq(e, []string{"open:", "close:", "driver-close:", "isopen:"},
+				[]string{"open:nil", "close:nil", "driver-close:nil", "isopen:false"}); s != "" {
 				return s, w
 			}
 			return "", ""
